@@ -62,6 +62,17 @@ struct Recorder {
     /// hold a worker for this many ms right after it drained a non-empty shard (a slow worker:
     /// widens the window in which the entries exist only in its local batch)
     drain_delay_ms: AtomicU64,
+    /// non-empty shard drains seen so far
+    drained: AtomicU64,
+    /// hold every record-data write for this many ms (the worker sits inside its write transaction,
+    /// after it has decided what to write and before any sector is published)
+    data_write_delay_ms: AtomicU64,
+    data_writes_started: AtomicU64,
+    /// park the write batch whose first extent starts at this block between its allocation and
+    /// the device lock (0 = none); `hold_state`: 0 idle, 1 parked, 2 released
+    hold_sector: AtomicU64,
+    hold_state: AtomicU64,
+    hold_writes: AtomicU64,
 }
 
 impl Recorder {
@@ -86,6 +97,11 @@ impl feoxdb::verif::io::Observer for Recorder {
         }
         match kind {
             IoKind::Write | IoKind::RingWrite => {
+                if sector >= 16 && data.len() >= 2 && data[0] == 0xCD && data[1] == 0xAB {
+                    self.data_writes_started.fetch_add(1, Ordering::SeqCst);
+                    let d = self.data_write_delay_ms.load(Ordering::SeqCst);
+                    if d > 0 { std::thread::sleep(std::time::Duration::from_millis(d)); }
+                }
                 let n = self.writes.fetch_add(1, Ordering::SeqCst) + 1;
                 let plan = self.plan.lock().unwrap().clone();
                 let mut d = Decision::Proceed;
@@ -144,9 +160,19 @@ impl feoxdb::verif::proto::Observer for Recorder {
             }
             PKind::WorkerFlush => {
                 self.visits.lock().unwrap().insert((a, b));
+                if ts > 0 { self.drained.fetch_add(1, Ordering::SeqCst); }
                 let d = self.drain_delay_ms.load(Ordering::SeqCst);
                 if d > 0 && ts > 0 {
                     std::thread::sleep(std::time::Duration::from_millis(d));
+                }
+            }
+            PKind::BatchAllocated => {
+                if a != 0 && a == self.hold_sector.load(Ordering::SeqCst) && self.hold_state.compare_exchange(0, 1, Ordering::SeqCst, Ordering::SeqCst).is_ok() {
+                    self.hold_writes.store(b, Ordering::SeqCst);
+                    let t0 = std::time::Instant::now();
+                    while self.hold_state.load(Ordering::SeqCst) == 1 && t0.elapsed() < std::time::Duration::from_secs(5) {
+                        std::thread::sleep(std::time::Duration::from_millis(1));
+                    }
                 }
             }
             PKind::Tick => {
@@ -277,6 +303,12 @@ fn run_workload(rng: &mut Rng, rec: &Arc<Recorder>, path: &str, blocks: u64, ste
     // every fourth workload runs with slow workers and lets the periodic tick fire before flush()
     let slow = explicit_flush && rng.chance(1, 4);
     rec.drain_delay_ms.store(if slow { rng.range(20, 60) } else { 0 }, Ordering::SeqCst);
+    // half of the slow workloads hold the worker inside its record write instead
+    let slow_write = slow && rng.chance(1, 2);
+    if slow_write {
+        rec.drain_delay_ms.store(0, Ordering::SeqCst);
+        rec.data_write_delay_ms.store(rng.range(15, 40), Ordering::SeqCst);
+    }
     let nkeys = rng.range(2, 5);
     let keys: Vec<Vec<u8>> = (0..nkeys).map(|i| format!("key-{}-{}", i, rng.below(1000)).into_bytes()).collect();
     let mut hist: HashMap<Vec<u8>, Vec<St>> = keys.iter().map(|k| (k.clone(), vec![St::Absent])).collect();
@@ -297,6 +329,25 @@ fn run_workload(rng: &mut Rng, rec: &Arc<Recorder>, path: &str, blocks: u64, ste
                     accepted = Some(h.len() - 1);
                 }
                 rec.push(Ev::End { key: k.clone(), accepted, result: format!("{:?}", r.is_ok()) });
+                if slow && r.is_ok() && rng.chance(1, 3) {
+                    // chase the write: as soon as a worker has drained the shard (and is held before it
+                    // writes), delete the key - the delete meets a generation whose transaction is under way
+                    let probe = if slow_write { &rec.data_writes_started } else { &rec.drained };
+                    let seen = probe.load(Ordering::SeqCst);
+                    let t0 = std::time::Instant::now();
+                    while probe.load(Ordering::SeqCst) == seen && t0.elapsed() < std::time::Duration::from_millis(160) {
+                        std::thread::sleep(std::time::Duration::from_millis(1));
+                    }
+                    rec.push(Ev::Begin(format!("del {} (chasing its write)", hex(&k))));
+                    let r = store.delete(&k);
+                    let mut accepted = None;
+                    if r.is_ok() {
+                        let h = hist.get_mut(&k).unwrap();
+                        h.push(St::Absent);
+                        accepted = Some(h.len() - 1);
+                    }
+                    rec.push(Ev::End { key: k.clone(), accepted, result: format!("{:?}", r.is_ok()) });
+                }
             }
             55..=74 => {
                 rec.push(Ev::Begin(format!("del {}", hex(&k))));
@@ -345,6 +396,7 @@ fn run_workload(rng: &mut Rng, rec: &Arc<Recorder>, path: &str, blocks: u64, ste
     let had_room = rec.alloc_fails.load(Ordering::SeqCst) == full_before;
     rec.push(Ev::FlushEnd { ok: had_room, snap });
     rec.drain_delay_ms.store(0, Ordering::SeqCst);
+    rec.data_write_delay_ms.store(0, Ordering::SeqCst);
     rec.enabled.store(false, Ordering::SeqCst);
     Some(Workload { keys, hist, blocks })
 }
@@ -440,6 +492,8 @@ fn window(trace: &[Ev], upto: usize, keys: &[Vec<u8>]) -> HashMap<Vec<u8>, (usiz
 struct Recovered {
     contents: BTreeMap<Vec<u8>, (u64, usize, u64)>, // key -> (digest, len, ts)
     len: usize,
+    /// ownership / counter problems of the recovered store (C05), before it is closed again
+    partition: Vec<String>,
 }
 
 fn recover(path: &str, blocks: u64) -> Result<Recovered, String> {
@@ -459,8 +513,9 @@ fn recover(path: &str, blocks: u64) -> Result<Recovered, String> {
                 }
             }
             let len = store.len();
+            let partition = partition_errors(&store, blocks, "recovered store");
             drop(store);
-            Ok(Recovered { contents, len })
+            Ok(Recovered { contents, len, partition })
         }
     }
 }
@@ -559,6 +614,14 @@ fn explore_crashes(rng: &mut Rng, out: &mut Out, rec: &Arc<Recorder>, w: &Worklo
             let r = recover(&p, w.blocks);
             rec.enabled.store(false, Ordering::SeqCst);
             let rtrace: Vec<Ev> = rec.log.lock().unwrap().clone();
+            // recovery's own device trace must follow the journal discipline too, starting from the
+            // journal the crash image holds
+            if lean_lines && r.is_ok() && img.len() >= 7 * BS {
+                if let Ok((_, _, extents)) = feoxdb::verif::pure::journal_decode(&img[BS..7 * BS], w.blocks) {
+                    out.count("txn recovery trace");
+                    emit_txn_lines(out, &rtrace, w.blocks, Some(&extents));
+                }
+            }
             match &r {
                 Err(e) => {
                     out.count("recover-failed");
@@ -566,6 +629,9 @@ fn explore_crashes(rng: &mut Rng, out: &mut Out, rec: &Arc<Recorder>, w: &Worklo
                 }
                 Ok(rv) => {
                     out.count("recover-ok");
+                    for e in rv.partition.iter().take(1) {
+                        out.fail("C05", format!("{} — crash after event {} ({}), un-synced writes: {}", e, upto, describe(trace, upto), vname), &keep);
+                    }
                     if let Some(why) = check_window(w, &win, rv) {
                         let prop = if why.contains("OLDER") || why.contains("absent") { "C02" } else { "C03" };
                         out.fail(prop, format!("{} — crash after event {} ({}), un-synced writes: {}", why, upto, describe(trace, upto), vname), &keep);
@@ -608,6 +674,41 @@ fn explore_crashes(rng: &mut Rng, out: &mut Out, rec: &Arc<Recorder>, w: &Worklo
                 let _ = std::fs::remove_file(&keep);
             }
             let _ = std::fs::remove_file(&p);
+        }
+    }
+}
+
+/// the device trace as `txn` lines for the journal-discipline acceptor `Feox.Proto.Txn.step?`:
+/// journal slot writes (decoded: active with runs, or clear), data-area writes with their block
+/// range, metadata writes, fsyncs.  `resume`: the runs of the journal the file held at open.
+fn emit_txn_lines(out: &mut Out, trace: &[Ev], blocks: u64, resume: Option<&[(u64, usize)]>) {
+    let show = |es: &[(u64, usize)]| if es.is_empty() { "-".to_string() } else { es.iter().map(|e| format!("{}:{}", e.0, e.0 + e.1 as u64)).collect::<Vec<_>>().join(",") };
+    match resume {
+        None => out.emit("txn new".into(), "ok".into()),
+        Some(es) => out.emit(format!("txn resume {}", show(es)), "ok".into()),
+    }
+    for e in trace {
+        match e {
+            Ev::Write { sector, data, .. } => {
+                let nb = (data.len().div_ceil(BS)).max(1) as u64;
+                if (1..7).contains(sector) {
+                    let mut area = vec![0u8; 6 * BS];
+                    let off = (*sector as usize - 1) * BS;
+                    let l = data.len().min(area.len() - off);
+                    area[off..off + l].copy_from_slice(&data[..l]);
+                    match feoxdb::verif::pure::journal_decode(&area, blocks) {
+                        Ok((_, _, extents)) => { out.count(if extents.is_empty() { "txn journal clear" } else { "txn journal active" }); out.emit(format!("txn j {}", show(&extents)), "ok".into()); }
+                        Err(_) => out.emit("txn j ?".into(), "ok".into()),
+                    }
+                } else if *sector >= 16 {
+                    out.count("txn data-area write");
+                    out.emit(format!("txn w {} {}", sector, sector + nb), "ok".into());
+                } else {
+                    out.emit("txn o".into(), "ok".into());
+                }
+            }
+            Ev::Fsync { .. } => out.emit("txn f".into(), "ok".into()),
+            _ => {}
         }
     }
 }
@@ -757,26 +858,27 @@ fn body_digest(path: &str) -> u64 {
 
 /// C05: at a quiescent point the data area is partitioned into live extents and free runs, and the
 /// counters agree
-fn check_partition(out: &mut Out, store: &FeoxStore, blocks: u64, ctx: &str) {
+fn partition_errors(store: &FeoxStore, blocks: u64, ctx: &str) -> Vec<String> {
+    let mut errs: Vec<String> = vec![];
     let snap = store.verif_snapshot();
     let free = store.verif_free_runs();
     let mut owner = vec![0u8; blocks as usize];
     let mut live_blocks = 0u64;
     for r in &snap {
         if r.sector == 0 {
-            out.fail("C05", format!("{}: after an acknowledged flush key {} has no extent", ctx, hex(&r.key)), "-");
+            errs.push(format!("{}: after an acknowledged flush key {} has no extent", ctx, hex(&r.key)));
             continue;
         }
         let n = (4 + 2 + r.key.len() + 8 + 8 + 8 + r.value_len).div_ceil(BS) as u64;
         live_blocks += n;
         for b in r.sector..r.sector + n {
             if b >= blocks || b < 16 {
-                out.fail("C05", format!("{}: extent of key {} leaves the data area (block {})", ctx, hex(&r.key), b), "-");
-                return;
+                errs.push(format!("{}: extent of key {} leaves the data area (block {})", ctx, hex(&r.key), b));
+                return errs;
             }
             if owner[b as usize] != 0 {
-                out.fail("C05", format!("{}: block {} belongs to two live extents", ctx, b), "-");
-                return;
+                errs.push(format!("{}: block {} belongs to two live extents", ctx, b));
+                return errs;
             }
             owner[b as usize] = 1;
         }
@@ -784,22 +886,57 @@ fn check_partition(out: &mut Out, store: &FeoxStore, blocks: u64, ctx: &str) {
     for (s, n) in &free {
         for b in *s..*s + *n {
             if b >= blocks || b < 16 || owner[b as usize] != 0 {
-                out.fail("C05", format!("{}: free run {}+{} overlaps a live extent or leaves the data area at block {}", ctx, s, n, b), "-");
-                return;
+                errs.push(format!("{}: free run {}+{} overlaps a live extent or leaves the data area at block {}", ctx, s, n, b));
+                return errs;
             }
             owner[b as usize] = 2;
         }
     }
     let unowned: Vec<usize> = (16..blocks as usize).filter(|b| owner[*b] == 0).collect();
     if !unowned.is_empty() {
-        out.fail("C05", format!("{}: {} data blocks are neither live nor free (leaked), first {}", ctx, unowned.len(), unowned[0]), "-");
+        errs.push(format!("{}: {} data blocks are neither live nor free (leaked), first {}", ctx, unowned.len(), unowned[0]));
     }
     if store.verif_disk_usage() != live_blocks * BS as u64 {
-        out.fail("C05", format!("{}: disk usage counter {} != live total {}", ctx, store.verif_disk_usage(), live_blocks * BS as u64), "-");
+        errs.push(format!("{}: disk usage counter {} != live total {}", ctx, store.verif_disk_usage(), live_blocks * BS as u64));
     }
     if store.len() != snap.len() {
-        out.fail("C05", format!("{}: len() {} != live keys {}", ctx, store.len(), snap.len()), "-");
+        errs.push(format!("{}: len() {} != live keys {}", ctx, store.len(), snap.len()));
     }
+    errs
+}
+
+/// `MarkOK` of the disk model on the real device: a valid retirement marker claims `remaining`
+/// blocks from its own position on; recovery trusts that claim (a span whose tail is not all
+/// markers is "repaired", i.e. overwritten).  So no block inside the span of any marker on the
+/// device may belong to a live, published record.
+fn marker_span_errors(path: &str, store: &FeoxStore, blocks: u64, ctx: &str) -> Vec<String> {
+    let Ok(img) = std::fs::read(path) else { return vec![] };
+    let mut owner: Vec<Option<Vec<u8>>> = vec![None; blocks as usize];
+    for r in store.verif_snapshot() {
+        if r.sector == 0 { continue; }
+        let n = (4 + 2 + r.key.len() + 8 + 8 + 8 + r.value_len).div_ceil(BS) as u64;
+        for b in r.sector..(r.sector + n).min(blocks) { owner[b as usize] = Some(r.key.clone()); }
+    }
+    let mut errs = vec![];
+    for b in 16..blocks as usize {
+        let o = b * BS;
+        if o + 19 > img.len() || owner[b].is_some() { continue; }
+        if &img[o..o + 8] != b"\0DELETED" { continue; }
+        let token = u16::from_le_bytes([img[o + 16], img[o + 17]]);
+        if token != feoxdb::verif::pure::retirement_marker_token(b as u64, &img[o..o + 19]) { continue; }
+        let rem = u64::from_le_bytes(img[o + 8..o + 16].try_into().unwrap());
+        for i in 1..rem.min(blocks - b as u64) {
+            if let Some(k) = &owner[b + i as usize] {
+                errs.push(format!("{}: the retirement marker in free block {} claims {} blocks, but block {} holds the live record of key {} - the next recovery skips / overwrites it", ctx, b, rem, b + i as usize, hex(k)));
+                return errs;
+            }
+        }
+    }
+    errs
+}
+
+fn check_partition(out: &mut Out, store: &FeoxStore, blocks: u64, ctx: &str) {
+    for e in partition_errors(store, blocks, ctx) { out.fail("C05", e, "-"); }
 }
 
 /// C05 behavioural: fill / churn / delete everything on a tiny device, then a fresh-device workload
@@ -821,7 +958,12 @@ fn partition_run(rng: &mut Rng, out: &mut Out, dir: &str, idx: u64) {
                 let _ = store.delete(&k);
             }
         }
-        match store.flush() {
+        let fr = store.flush();
+        // whatever the flush said: no marker on the device may claim a block of a published record
+        for e in marker_span_errors(&path, &store, blocks, &format!("partition run {} round {}", idx, round)) {
+            out.fail("C05", e.clone(), "-");
+        }
+        match fr {
             Ok(()) => check_partition(out, &store, blocks, &format!("partition run {} round {}", idx, round)),
             Err(FeoxError::OutOfSpace) => {
                 // device full: make room and go on
@@ -917,6 +1059,10 @@ fn fault_run(rng: &mut Rng, out: &mut Out, rec: &Arc<Recorder>, dir: &str, idx: 
                     let r = store.flush();
                     rec.push(Ev::FlushEnd { ok: r.is_ok(), snap: snap.clone() });
                     flushes.push((r.is_ok(), snap));
+                    // failed or not: no marker on the device may claim a block of a published record
+                    for e in marker_span_errors(&path, &store, blocks, "after a flush") {
+                        flushes.push((false, vec![(format!("!marker-span {}", e).into_bytes(), 0)]));
+                    }
                 }
             }
         }
@@ -1023,6 +1169,11 @@ fn fault_run(rng: &mut Rng, out: &mut Out, rec: &Arc<Recorder>, dir: &str, idx: 
         if !reads_ok {
             out.fail("C09", format!("fault plan {}: a read did not return the latest accepted value from memory", pname), "-");
         }
+        if let Some((_, sn)) = flushes.iter().find(|(_, s)| s.first().is_some_and(|x| x.0.starts_with(b"!marker-span"))) {
+            let what = format!("fault plan {}: {} (device {} blocks)", pname, String::from_utf8_lossy(&sn[0].0), w.blocks);
+            out.fail("C09", what.clone(), "-");
+            out.fail("C05", what, "-");
+        }
         if let Some((_, sn)) = flushes.iter().find(|(_, s)| s.first().is_some_and(|x| x.0.starts_with(b"!retry-failed"))) {
             out.fail("C09", format!("fault plan {}: after the device works again flush() still fails (and not as an indeterminate write): {} (device {} blocks)", pname, String::from_utf8_lossy(&sn[0].0), w.blocks), "-");
         }
@@ -1056,6 +1207,188 @@ fn fault_run(rng: &mut Rng, out: &mut Out, rec: &Arc<Recorder>, dir: &str, idx: 
 }
 
 /// C19: no explicit flush; every accepted write must be durable within a generous deadline
+/// directed fault case: the free pool starts with a coalesced retirement run (a head marker that
+/// claims several blocks); one flush then carries the batches of several keys, and ONE device write
+/// or fsync of that flush fails - every position in turn.  Right after the failed flush, and again
+/// after the device works and a flush is acknowledged, no marker may claim a block of a published
+/// record, and a recovery of the device as it stands must return every acknowledged key.
+fn stale_head_run(rng: &mut Rng, out: &mut Out, rec: &Arc<Recorder>, dir: &str, idx: u64) {
+    let blocks = 40u64;
+    let path = format!("{}/head{}.feox", dir, idx);
+    let nold = rng.range(2, 4);
+    let nnew = rng.range(2, 4);
+    let mut plans: Vec<(String, FaultPlan)> = vec![("rehearsal".into(), FaultPlan::default())];
+    let mut pi = 0;
+    let mut base_writes = (0u64, 0u64, 0u64, 0u64); // writes / fsyncs before and after the flush under test
+    while pi < plans.len() {
+        let (pname, plan) = plans[pi].clone();
+        pi += 1;
+        let _ = std::fs::remove_file(&path);
+        *rec.plan.lock().unwrap() = FaultPlan::default();
+        rec.log.lock().unwrap().clear();
+        rec.writes.store(0, Ordering::SeqCst);
+        rec.fsyncs.store(0, Ordering::SeqCst);
+        rec.fd.store(-2, Ordering::SeqCst);
+        rec.enabled.store(true, Ordering::SeqCst);
+        let Ok(store) = open_store(&path, blocks, false) else { rec.enabled.store(false, Ordering::SeqCst); rec.fd.store(-1, Ordering::SeqCst); return };
+        let old: Vec<Vec<u8>> = (0..nold).map(|i| format!("old-{}", i).into_bytes()).collect();
+        for k in &old { let _ = store.insert(k, &vec![0x61; 100]); }
+        let _ = store.flush();
+        for k in &old { let _ = store.delete(k); }
+        let _ = store.flush();
+        let w0 = (rec.writes.load(Ordering::SeqCst), rec.fsyncs.load(Ordering::SeqCst));
+        let newk: Vec<Vec<u8>> = (0..nnew).map(|i| format!("new-{}", i).into_bytes()).collect();
+        let mut vals: BTreeMap<Vec<u8>, Vec<u8>> = BTreeMap::new();
+        for (i, k) in newk.iter().enumerate() { let v = vec![0x70 + i as u8; 120]; let _ = store.insert(k, &v); vals.insert(k.clone(), v); }
+        *rec.plan.lock().unwrap() = plan.clone();
+        let fr = store.flush();
+        *rec.plan.lock().unwrap() = FaultPlan::default();
+        let w1 = (rec.writes.load(Ordering::SeqCst), rec.fsyncs.load(Ordering::SeqCst));
+        out.count("stale-head-fault-case");
+        let mut errs = marker_span_errors(&path, &store, blocks, &format!("stale-head case, fault plan {}, right after flush() = {}", pname, if fr.is_ok() { "Ok" } else { "Err" }));
+        // the keys whose generation did not make it are deleted before any retry; then the device works
+        for r in store.verif_snapshot() { if r.sector == 0 { let _ = store.delete(&r.key); vals.remove(&r.key); } }
+        let fr2 = store.flush();
+        let poisoned = matches!(fr2, Err(FeoxError::IndeterminateWrite(_)));
+        if errs.is_empty() {
+            errs = marker_span_errors(&path, &store, blocks, &format!("stale-head case, fault plan {}, after the device works again", pname));
+        }
+        if fr2.is_ok() {
+            // recover the device as it stands
+            let img = std::fs::read(&path).unwrap_or_default();
+            let p = write_image(dir, &format!("head{}_{}.feox", idx, pi), &img);
+            match recover(&p, blocks) {
+                Err(e) => errs.push(format!("stale-head case, fault plan {}: the device as it stands after an acknowledged flush does not recover: {}", pname, e)),
+                Ok(rv) => {
+                    for (k, v) in &vals {
+                        match rv.contents.get(k) {
+                            Some((d, l, _)) if *d == fnv(v) && *l == v.len() => {}
+                            other => { errs.push(format!("stale-head case, fault plan {}: key {} was acknowledged by flush() after the failure, but a recovery of the device as it stands returns {:?}", pname, hex(k), other.map(|x| x.1))); break; }
+                        }
+                    }
+                }
+            }
+            let _ = std::fs::remove_file(&p);
+        } else if !poisoned {
+            errs.push(format!("stale-head case, fault plan {}: after the device works again flush() still fails: {:?}", pname, fr2.as_ref().err().map(err_name)));
+        }
+        for e in errs.iter().take(1) {
+            out.fail("C09", e.clone(), "-");
+            out.fail("C05", e.clone(), "-");
+        }
+        drop(store);
+        rec.enabled.store(false, Ordering::SeqCst);
+        rec.fd.store(-1, Ordering::SeqCst);
+        if pname == "rehearsal" {
+            base_writes = (w0.0, w0.1, w1.0, w1.1);
+            for k in base_writes.0 + 1..=base_writes.2 {
+                plans.push((format!("write#{}-before", k), FaultPlan { fail_write: vec![(k, false)], ..Default::default() }));
+                if rng.chance(1, 2) { plans.push((format!("write#{}-after", k), FaultPlan { fail_write: vec![(k, true)], ..Default::default() })); }
+            }
+            for k in base_writes.1 + 1..=base_writes.3 {
+                plans.push((format!("fsync#{}-before", k), FaultPlan { fail_fsync: vec![(k, false)], ..Default::default() }));
+            }
+        }
+    }
+    let _ = base_writes;
+    let _ = std::fs::remove_file(&path);
+}
+
+/// C02 / C03 without any fault: a free run starts with a retirement marker that claims several
+/// blocks (two neighbouring extents retired in one transaction).  Two write batches of different
+/// workers take the first and the second block of that run; the one that holds the head block is
+/// parked between its allocation and the device lock while the other one completes its whole
+/// transaction (and the retirement of the generation it replaced).  A crash at that instant - only
+/// what was fsynced survives - must still recover every key to a state no older than the last
+/// acknowledged one.
+fn hazard_run(rng: &mut Rng, out: &mut Out, rec: &Arc<Recorder>, dir: &str, idx: u64) {
+    let blocks = 48u64;
+    let path = format!("{}/hazard{}.feox", dir, idx);
+    let _ = std::fs::remove_file(&path);
+    *rec.plan.lock().unwrap() = FaultPlan::default();
+    rec.log.lock().unwrap().clear();
+    rec.hold_sector.store(0, Ordering::SeqCst);
+    rec.hold_state.store(0, Ordering::SeqCst);
+    rec.fd.store(-2, Ordering::SeqCst);
+    rec.enabled.store(true, Ordering::SeqCst);
+    let finish = |rec: &Arc<Recorder>| { rec.hold_sector.store(0, Ordering::SeqCst); rec.hold_state.store(2, Ordering::SeqCst); rec.enabled.store(false, Ordering::SeqCst); rec.fd.store(-1, Ordering::SeqCst); };
+    let Ok(store) = open_store(&path, blocks, false) else { finish(rec); return };
+    let tag = rng.below(100000);
+    let kg = format!("g-{}", tag).into_bytes();
+    let ka = format!("a-{}", tag).into_bytes();
+    let kb = format!("b-{}", tag).into_bytes();
+    let kf = format!("f-{}", tag).into_bytes();
+    let v0 = rng.bytes(100);
+    let v1 = rng.bytes(110);
+    // one record per flush: kG, a, b end up in neighbouring blocks, in this order
+    for (k, v) in [(&kg, &v0), (&ka, &rng.bytes(90)), (&kb, &rng.bytes(95))] {
+        if store.insert(k, v).is_err() || store.flush().is_err() { finish(rec); return; }
+    }
+    let snap = store.verif_snapshot();
+    let sec = |k: &Vec<u8>| snap.iter().find(|r| &r.key == k).map(|r| r.sector).unwrap_or(0);
+    let (sg, sa, sb) = (sec(&kg), sec(&ka), sec(&kb));
+    if sa == 0 || sb != sa + 1 { out.count("hazard skipped (extents not adjacent)"); drop(store); finish(rec); let _ = std::fs::remove_file(&path); return; }
+    // both retired in one transaction: one coalesced run, its head claims two blocks
+    let _ = store.delete(&ka);
+    let _ = store.delete(&kb);
+    if store.flush().is_err() { finish(rec); return; }
+    let acked_trace_len = rec.log.lock().unwrap().len();
+    let _ = acked_trace_len;
+    // the batch that gets the head block is parked after its allocation
+    rec.hold_sector.store(sa, Ordering::SeqCst);
+    let _ = store.insert(&kf, &rng.bytes(80));
+    let _ = store.insert(&kg, &v1);
+    // no flush(): the periodic flusher wakes both workers; wait until the other batch has published kG's
+    // new generation and the old one has been retired (its blocks released), or give up
+    let t0 = std::time::Instant::now();
+    let mut done = false;
+    while t0.elapsed() < std::time::Duration::from_millis(1500) {
+        std::thread::sleep(std::time::Duration::from_millis(5));
+        let log = rec.log.lock().unwrap();
+        let published = log.iter().any(|e| matches!(e, Ev::Publish(_, _, k, _) if k == &kg) ) && log.iter().filter(|e| matches!(e, Ev::Publish(_, _, k, _) if k == &kg)).count() >= 2;
+        let retired = log.iter().any(|e| matches!(e, Ev::Release(s, _) if *s == sg));
+        if rec.hold_state.load(Ordering::SeqCst) == 1 && published && retired { done = true; break; }
+    }
+    let parked = rec.hold_state.load(Ordering::SeqCst) == 1;
+    let trace: Vec<Ev> = rec.log.lock().unwrap().clone();
+    rec.hold_state.store(2, Ordering::SeqCst);
+    if !(done && parked) || rec.hold_writes.load(Ordering::SeqCst) != 1 {
+        out.count(if !parked { "hazard skipped (head batch not parked)" } else if rec.hold_writes.load(Ordering::SeqCst) != 1 { "hazard skipped (both records in one batch)" } else { "hazard skipped (other batch did not finish)" });
+        let _ = store.flush();
+        drop(store);
+        finish(rec);
+        let _ = std::fs::remove_file(&path);
+        return;
+    }
+    out.count("hazard case");
+    // crash now: what was fsynced, nothing else
+    let (img, _) = build_image(&trace, trace.len(), blocks, &|_, _| Fate::Lost);
+    let p = write_image(dir, &format!("hazard{}_crash.feox", idx), &img);
+    let keep = format!("{}.orig", p);
+    std::fs::write(&keep, &img).unwrap();
+    let r = recover(&p, blocks);
+    let _ = store.flush();
+    drop(store);
+    finish(rec);
+    let verdict = match &r {
+        Err(e) => Some(format!("the crash image does not recover: {}", e)),
+        Ok(rv) => match rv.contents.get(&kg) {
+            Some((d, l, _)) if (*d == fnv(&v0) && *l == v0.len()) || (*d == fnv(&v1) && *l == v1.len()) => None,
+            other => Some(format!("key {} was acknowledged with a {}-byte value by flush(); after a crash while a neighbouring write batch sat between its allocation and the device lock, recovery returns {:?} for it", hex(&kg), v0.len(), other.map(|x| x.1))),
+        },
+    };
+    match verdict {
+        Some(why) => {
+            let what = format!("no fault, two workers: the free run at block {} starts with a retirement marker claiming 2 blocks; one batch holds block {} (allocated, not yet journalled), the other wrote and published block {} and retired the old generation at block {}: {}", sa, sa, sa + 1, sg, why);
+            out.fail("C02", what.clone(), &keep);
+            out.fail("C03", what, &keep);
+        }
+        None => { let _ = std::fs::remove_file(&keep); }
+    }
+    let _ = std::fs::remove_file(&p);
+    let _ = std::fs::remove_file(&path);
+}
+
 fn writebehind_run(rng: &mut Rng, out: &mut Out, rec: &Arc<Recorder>, dir: &str, idx: u64) {
     let blocks = 256u64;
     let path = format!("{}/wb{}.feox", dir, idx);
@@ -1221,7 +1554,7 @@ fn main() {
     feoxdb::verif::proto::fast_shutdown(true);
     let rec = Arc::new(Recorder { log: Mutex::new(vec![]), enabled: AtomicBool::new(false), writes: AtomicU64::new(0), fsyncs: AtomicU64::new(0),
         plan: Mutex::new(FaultPlan::default()), injected: AtomicU64::new(0), fd: AtomicI64::new(-1),
-        visits: Mutex::new(Default::default()), ticks: Mutex::new(vec![]), alloc_fails: AtomicU64::new(0), drain_delay_ms: AtomicU64::new(0) });
+        visits: Mutex::new(Default::default()), ticks: Mutex::new(vec![]), alloc_fails: AtomicU64::new(0), drain_delay_ms: AtomicU64::new(0), drained: AtomicU64::new(0), data_write_delay_ms: AtomicU64::new(0), data_writes_started: AtomicU64::new(0), hold_sector: AtomicU64::new(0), hold_state: AtomicU64::new(0), hold_writes: AtomicU64::new(0) });
     feoxdb::verif::io::set_observer(Some(rec.clone()));
     feoxdb::verif::proto::set_observer(Some(rec.clone()));
     let mut rng = Rng::new(args.seed);
@@ -1257,6 +1590,7 @@ fn main() {
                 PRESSURE.store(false, Ordering::Relaxed);
                 if pressure { out.count("crash-workload-pressure"); }
                 emit_dur_lines(&mut out, &w, &trace);
+                emit_txn_lines(&mut out, &trace, blocks, None);
                 explore_crashes(&mut rng, &mut out, &rec, &w, &trace, &format!("crash{}", i), budget, get("lean", 1) == 1);
             }
             let _ = std::fs::remove_file(&path);
@@ -1270,6 +1604,12 @@ fn main() {
     if has("fault") {
         for i in 0..get("faults", 2) {
             fault_run(&mut rng, &mut out, &rec, &args.out.clone(), args.seed * 100 + i);
+            stale_head_run(&mut rng, &mut out, &rec, &args.out.clone(), i);
+        }
+    }
+    if has("hazard") {
+        for i in 0..get("hazards", 4) {
+            hazard_run(&mut rng, &mut out, &rec, &args.out.clone(), i);
         }
     }
     if has("writebehind") {
